@@ -16,7 +16,15 @@ collinear segments `segments_3d` (as of /repo commit d86841392) answers
   * the two middle points       otherwise,
 and `line_tessellation` appends `(i, j, 0.0)` for one point and `(i, j, |X[:,0] - X[:,1]|)` for two.
 The tolerance enters the model as `ptol` = `tol` expressed in the unit of the line parameter.
+
+2-D part (second half of the file): `_convex_polygons_common_area` (Sutherland–Hodgman clipping of the
+first polygon against the half planes of the second + shoelace area, as of /repo commit 107a27baf),
+the double loop of `triangulations` with its bounding-box filter and `area > 0` test, and the scaling
+branches of `match_2d`.  The clipping functions are those of the C44 model (`shClip2`, `halfPlanes`,
+`area2`), which are the same algorithm: keep a vertex iff `dist >= 0`, add the crossing point iff the
+signs are strictly opposite, `t = dist_k / (dist_k - dist_next)`.
 -/
+import PorepyVerif.C44.Model
 namespace PorepyVerif.C33
 
 abbrev Cell := Rat × Rat
@@ -57,7 +65,7 @@ def pairOverlap (ptol : Rat) (c d : Cell) : Option Rat :=
 
 /-- inner loop of `line_tessellation` (`for j in range(l2.shape[1])`), `j` = index of the head of `ds`;
     `f` = what `segments_3d` + the weight computation answer for a pair of cells -/
-def rowTess (f : Cell → Cell → Option Rat) (i : Nat) (c : Cell) : Nat → List Cell → List Triple
+def rowTess {α β : Type} (f : α → β → Option Rat) (i : Nat) (c : α) : Nat → List β → List Triple
   | _, [] => []
   | j, d :: ds =>
     match f c d with
@@ -65,7 +73,7 @@ def rowTess (f : Cell → Cell → Option Rat) (i : Nat) (c : Cell) : Nat → Li
     | some w => (i, j, w) :: rowTess f i c (j + 1) ds
 
 /-- outer loop (`for i in range(l1.shape[1])`), `i` = index of the head of the first list -/
-def tessFrom (f : Cell → Cell → Option Rat) : Nat → List Cell → List Cell → List Triple
+def tessFrom {α β : Type} (f : α → β → Option Rat) : Nat → List α → List β → List Triple
   | _, [], _ => []
   | i, c :: cs, ds => rowTess f i c 0 ds ++ tessFrom f (i + 1) cs ds
 
@@ -135,5 +143,87 @@ def colSum : List Triple → Nat → Rat
 
 /-- column sum of a dense matrix -/
 def colSumDense (M : List (List Rat)) (j : Nat) : Rat := (M.map (fun row => row.getD j 0)).sum
+
+/-! ## 2-D: overlaps of convex polygons (triangles) -/
+
+open PorepyVerif.C44 (Pt HP area2 shClip2 halfPlanes)
+
+abbrev Poly := List Pt
+
+def rabs (x : Rat) : Rat := if 0 ≤ x then x else -x
+
+/-- twice the signed area of what Sutherland–Hodgman leaves of polygon `S` inside all half-planes -/
+def clipArea2 (hs : List HP) (S : Poly) : Rat := area2 (shClip2 hs S)
+
+/-- `_convex_polygons_common_area(poly_1 = S, poly_2 = T)` -/
+def commonArea (S T : Poly) : Rat := rabs (clipArea2 (halfPlanes T) S) / 2
+
+/-- area of a polygon (`Grid.cell_volumes` of a planar simplex grid) -/
+def polyArea (S : Poly) : Rat := rabs (area2 S) / 2
+
+def minL : Rat → List Rat → Rat
+  | m, [] => m
+  | m, x :: l => minL (rmin m x) l
+
+def maxL : Rat → List Rat → Rat
+  | m, [] => m
+  | m, x :: l => maxL (rmax m x) l
+
+def minOf : List Rat → Rat
+  | [] => 0
+  | x :: l => minL x l
+
+def maxOf : List Rat → Rat
+  | [] => 0
+  | x :: l => maxL x l
+
+/-- bounding-box filter of `triangulations`: `T` is right of / left of / above / below `S` -/
+def outsideBox (S T : Poly) : Bool :=
+  decide (maxOf (S.map (·.x)) < minOf (T.map (·.x))) || decide (maxOf (T.map (·.x)) < minOf (S.map (·.x))) ||
+  decide (maxOf (S.map (·.y)) < minOf (T.map (·.y))) || decide (maxOf (T.map (·.y)) < minOf (S.map (·.y)))
+
+/-- one pair of the double loop of `triangulations`: candidates only, reported iff `area > 0` -/
+def triPair (S T : Poly) : Option Rat :=
+  if outsideBox S T then none
+  else if 0 < commonArea S T then some (commonArea S T) else none
+
+/-- `triangulations(p_1, p_2, t_1, t_2)` on the lists of triangles -/
+def triTess (ps qs : List Poly) : List Triple := tessFrom triPair 0 ps qs
+
+/-- the scaling branches of `match_2d`, with the cell volumes of the two grids -/
+def scaleVol (mode : Scaling) (v1 v2 : List Rat) (T : List Triple) : List Triple :=
+  match mode with
+  | .averaged => T.map (fun t => (t.1, t.2.1, t.2.2 / v1.getD t.1 0))
+  | .integrated => T.map (fun t => (t.1, t.2.1, t.2.2 / v2.getD t.2.1 0))
+  | .unscaled tol => (T.filter (fun t => decide (tol < t.2.2))).map (fun t => (t.1, t.2.1, 1))
+
+/-- `match_2d(new_g, old_g, tol, scaling).toarray()` for planar grids given by their triangles -/
+def match2dFrom (mode : Scaling) (ps qs : List Poly) (T : List Triple) : List (List Rat) :=
+  dense ps.length qs.length (scaleVol mode (ps.map polyArea) (qs.map polyArea) T)
+
+def match2d (mode : Scaling) (ps qs : List Poly) : List (List Rat) :=
+  match2dFrom mode ps qs (triTess ps qs)
+
+/-! ### vocabulary of the 2-D specification -/
+
+/-- the complementary closed half-plane -/
+def negHP (h : HP) : HP := ⟨-h.a, -h.b, -h.c⟩
+
+/-- the boundary of the half-plane is a line -/
+def nondeg (h : HP) : Bool := !(decide (h.a = 0) && decide (h.b = 0))
+
+/-- binary space partition: every inner node cuts its cell by a line -/
+inductive BSP where
+  | leaf
+  | node (h : HP) (l r : BSP)
+
+/-- the cells (lists of half-planes along the path) of the partition below a cell `hs` -/
+def BSP.cells : List HP → BSP → List (List HP)
+  | hs, .leaf => [hs]
+  | hs, .node h l r => BSP.cells (hs ++ [h]) l ++ BSP.cells (hs ++ [negHP h]) r
+
+def BSP.wf : BSP → Bool
+  | .leaf => true
+  | .node h l r => nondeg h && l.wf && r.wf
 
 end PorepyVerif.C33
